@@ -56,6 +56,7 @@ def actor_ops(writer_jobs):
         st.fixed_dictionaries({"o": st.just("write"), "j": st.sampled_from(writer_jobs), "k": st.sampled_from(["x", "y"]), "v": st.sampled_from([1, [1, 2]]), "whole": st.just(True)}),
         st.fixed_dictionaries({"o": st.just("read"), "j": st.integers(0, 2)}),
         st.fixed_dictionaries({"o": st.just("len")}),
+        st.fixed_dictionaries({"o": st.just("len")}),
     )
     return st.lists(op, min_size=1, max_size=4)
 
@@ -189,10 +190,24 @@ def judge(case, root, init_docs, actors, order, where, mms):
                 if not any(done_before <= k <= begun_before_end for k in idx_ok):
                     mms.append(Mismatch("stale_read", f"{where}: actor {a.idx} read doc of job {j} = {got!r} although {done_before} write(s) had completed before the read began (states {cand!r})"))
             elif op.get("o") == "len":
-                touched = {o.get("j", 0) % 3 for ops in case["actors"] for o in ops if isinstance(o, dict) and o.get("o") in ("init", "write", "read")}
-                lo, hi = len(init_docs), len(set(init_docs) | touched)
+                # every job whose creating call had returned before len() was called is counted; none whose creating
+                # call had not begun when len() returned
+                t0, t1 = pos.get((a.idx, "b", i), -1), pos.get((a.idx, "e", i), 10**9)
+                sure, maybe = set(init_docs), set(init_docs)
+                for b, bops in enumerate(case["actors"]):
+                    for k, o in enumerate(bops):
+                        if not isinstance(o, dict) or o.get("o") not in ("init", "write", "read"):
+                            continue
+                        j = o.get("j", 0) % 3
+                        if o.get("o") == "write" and j % nactors != b:
+                            continue
+                        if pos.get((b, "e", k), 10**9) < t0:
+                            sure.add(j)
+                        if pos.get((b, "b", k), 10**9) < t1:
+                            maybe.add(j)
+                lo, hi = len(sure), len(maybe)
                 if not (isinstance(rets[i], int) and lo <= rets[i] <= hi):
-                    mms.append(Mismatch("len_out_of_range", f"{where}: len(project) = {rets[i]!r}, expected between {lo} and {hi}"))
+                    mms.append(Mismatch("len_out_of_range", f"{where}: len(project) = {rets[i]!r}, expected between {lo} (jobs whose creation had returned before the call) and {hi}"))
     # final state
     fresh = signac.Project(root)
     touched = set(init_docs)
@@ -393,6 +408,9 @@ CONSTRUCTED = [
     {"start": "populated", "mode": "bounded", "schedules": [[]], "actors": [[{"o": "write", "j": 0, "k": "x", "v": [1, 2], "whole": True}, {"o": "write", "j": 0, "k": "y", "v": 1, "whole": True}], [{"o": "read", "j": 0}, {"o": "read", "j": 0}]]},
     {"start": "populated", "mode": "bounded", "schedules": [[]], "actors": [[{"o": "write", "j": 0, "k": "x", "v": "s"}, {"o": "init", "j": 2}], [{"o": "init", "j": 2}, {"o": "write", "j": 1, "k": "x", "v": {"n": 1}}, {"o": "read", "j": 0}]]},
     {"start": "noworkspace", "mode": "bounded", "schedules": [[]], "actors": [[{"o": "init", "j": 0}, {"o": "len"}], [{"o": "init", "j": 1}, {"o": "len"}]]},
+    # one long-lived Project object counts repeatedly while another process creates jobs
+    {"start": "empty", "mode": "bounded", "schedules": [[]], "actors": [[{"o": "len"}, {"o": "len"}, {"o": "len"}], [{"o": "init", "j": 0}]]},
+    {"start": "populated", "mode": "bounded", "schedules": [[]], "actors": [[{"o": "len"}, {"o": "len"}], [{"o": "init", "j": 2}, {"o": "len"}]]},
     {"start": "empty", "mode": "random", "schedules": [[0, 1, 2], [2, 2, 1, 0, 0, 1], [1, 0]], "actors": [[{"o": "init", "j": 0}, {"o": "write", "j": 0, "k": "x", "v": 1}], [{"o": "init", "j": 0}, {"o": "write", "j": 1, "k": "x", "v": 1}], [{"o": "init", "j": 0}, {"o": "read", "j": 1}, {"o": "len"}]]},
 ]
 
